@@ -75,6 +75,7 @@ class Prov:
         self._closure_sites = None
         self.through_params = False
         self.stop_tags = set()
+        self.inline = True
 
     # ------------------------------------------------------------------ definitions index
     def defs(self, f):
@@ -459,18 +460,19 @@ class Prov:
             return self._phi([self.resolve_env(x) for x in t[1]])
         return t
 
-    def root(self, t, depth=48, through_params=False, stop_tags=()):
+    def root(self, t, depth=48, through_params=False, stop_tags=(), inline=True):
         """Peel projections and transparent calls.  Returns a list of (root, path) alternatives
         (several for phi).  path is a tuple of steps from the root outwards.  With through_params,
         a parameter is followed into the callers' arguments (context-insensitively)."""
         out = []
-        old = (self.through_params, self.stop_tags)
+        old = (self.through_params, self.stop_tags, self.inline)
         self.through_params = through_params
         self.stop_tags = set(stop_tags)
+        self.inline = inline
         try:
             self._root(t, (), depth, out)
         finally:
-            self.through_params, self.stop_tags = old
+            self.through_params, self.stop_tags, self.inline = old
         res = []
         for x in out:
             if x not in res:
@@ -560,11 +562,12 @@ class Prov:
                         out.append((('const', '?', 'Default::default()', None), path))
                     return
             if t[0] == 'call':
-                e = self.expand(t, 1)
-                if e != t:
-                    self._root(e, path, depth - 1, out)
-                    return
-            else:
+                if self.inline:
+                    e = self.expand(t, 1)
+                    if e != t:
+                        self._root(e, path, depth - 1, out)
+                        return
+            elif self.inline:
                 inner = self.unbound(t)
                 term = self.call_term(inner)
                 callee = self.F.callee_fn(term)
